@@ -38,13 +38,15 @@ func runCmd(args []string) {
 	params := fs.String("params", "", "k=v,k=v")
 	verbose := fs.Int("v", 0, "verbosity")
 	solver := fs.String("solver", "z3-new", "z3-new | z3 | cvc5")
+	goarch := fs.String("goarch", "", "GOARCH for loading (arm64 = portable configuration)")
+	nostubs := fs.String("nostubs", "", "comma-separated intrinsic name substrings to disable")
 	fs.Parse(args)
 	t0 := time.Now()
 	ov, err := sym.BuildOverlay(*harness, *repo)
 	if err != nil {
 		fatal(err)
 	}
-	p, err := sym.Load(*repo, ov, "", *pkg)
+	p, err := sym.Load(*repo, ov, *goarch, *pkg)
 	if err != nil {
 		fatal(err)
 	}
@@ -66,6 +68,11 @@ func runCmd(args []string) {
 		k = parts[0]
 		fmt.Sscan(parts[1], &v)
 		e.Params[k] = v
+	}
+	for _, ns := range strings.Split(*nostubs, ",") {
+		if ns != "" {
+			e.Unregister(ns)
+		}
 	}
 	t1 := time.Now()
 	if err := e.Prepare(p.Pkgs); err != nil {
